@@ -183,7 +183,8 @@ def prestate(sb, root, learned, ids):
         s = sha(src)
         e = (man or {"files": {}})["files"].get(src)
         paths.append({"src": src, "rel": os.path.relpath(src, root), "sha": s, "dst": dst, "map": mp,
-                      "blob_ok": bool(e and e.get("fragment") and blob_ok(root, e["fragment"])),
+                      "blob_ok": bool(e and e.get("fragment") and blob_ok(root, e["fragment"])
+                                      and (not e.get("diagnostics") or blob_ok(root, e["diagnostics"]))),
                       "gen": info.get(dst), "dst_exists": os.path.exists(dst), "map_exists": os.path.exists(mp),
                       "mtime": os.stat(src).st_mtime_ns})
     return {"meta": meta, "manifest": man, "info": info, "key": key, "mn": mn, "paths": paths,
@@ -565,6 +566,12 @@ def shrink_history(veryl, prj, steps, key):
 
 def run(tier, seed, replay):
     res = C.Result(PID, "other", tier, seed)
+    res.coverage["explanation"] = (
+        "partial proof + correspondence: the miss-set / restore / save logic of incremental.rs is transcribed to Gallina and "
+        "incr_eq_clean is proved for all histories, with analysis and emission as uninterpreted functions constrained by named "
+        "hypotheses ((K) discharged from lists regenerated from the Rust source; (D), (W), (E) assumed); the model's miss set is "
+        "compared with the real CLI on every command of generated histories and the property itself (incremental == clean: tree, "
+        "manifest, diagnostics, status) is evaluated on the CLI; known defect classes are refuted in Coq and recorded")
     res.coverage["trusted_base"] = C.std_trusted_base([
         "model: coq/Incr/IncrModel.v transcribes crates/veryl/src/incremental.rs (open, dst_is_stale, try_restore, capture, save) "
         "and the restore-or-emit decision of pipeline.rs / cmd_build.rs / cmd_check.rs; paths, hashes, times as unbounded N",
@@ -598,7 +605,15 @@ def run(tier, seed, replay):
     if not ok:
         res.violation("cli-build", "the veryl CLI no longer builds: " + log[-300:], {"log": log[-2000:]}, no_input=True)
         return res.finish()
-    veryl = bins["veryl"]
+    bindir = C.scratch_dir("c04bin")
+    veryl = G.private_binary(bins["veryl"], bindir)
+    try:
+        return _run_with(res, veryl, tier, seed, replay, proved)
+    finally:
+        shutil.rmtree(bindir, ignore_errors=True)
+
+
+def _run_with(res, veryl, tier, seed, replay, proved):
 
     # 4. cases
     if replay:
